@@ -161,7 +161,7 @@ def c03(rec):
             out.append(dict(signature=f"C03:ran-twice|cause={c}",
                             msg=f"task body {key} executed {n} times"))
     for o in rec.ops:
-        if o["op"][0] == "map" and "value" in o:
+        if o["op"][0] in ("map", "map_partial") and "value" in o:
             if o["value"] != ("val", o["expect"]):
                 out.append(dict(signature=f"C03:map-differs|cause={c}",
                                 msg=f"map {o['op'][2:]} gave {str(o['value'])[:200]} expected "
@@ -200,10 +200,18 @@ def c04(rec):
                             msg=f"call-queue slot semaphore is {o['value']['slot']} instead of "
                                 f"{o['value']['queue_size']} once every future had resolved"))
     for o in rec.ops:
-        if o["op"][0] == "callback" and o["op"][2] == "raise":
-            if ("callback", o["op"][1]) not in rec.notes:
-                out.append(dict(signature=f"C04:callback-not-run|cause={c}",
-                                msg="done-callback was never invoked"))
+        if o["op"][0] == "callback" and o["op"][2] in ("raise", "add_callback", "ok"):
+            key = o["op"][1]
+            nrun = rec.notes.count(("callback", key))
+            nreg = sum(1 for q in rec.ops if q["op"][0] == "callback" and q["op"][1] == key)
+            done = rec.fut.get(key, ("undone",))[0] != "undone"
+            if done and o["returned"] and nrun != nreg:
+                out.append(dict(signature=f"C04:callback-run-{nrun}-times-of-{nreg}|cause={c}",
+                                msg=f"{nreg} done-callback(s) registered on {key}, invoked {nrun} times"))
+        if o["op"][0] == "late_callback" and o["returned"] and o.get("value") is False:
+            out.append(dict(signature=f"C04:late-callback-not-run|cause={c}",
+                            msg=f"add_done_callback on the finished future {o['op'][1]} did not "
+                                f"run the callback"))
     return out, _cls(rec)
 
 
